@@ -108,7 +108,7 @@ func dominatesInstr(a ssa.Instruction, b ssa.Instruction) bool {
 
 func (ld *Loaded) protectScan(fd *FieldDecl) *FuncResult {
 	o := &Obligation{Name: shortStem(fd.Pkg, fd.Type) + "#protect:" + fd.Field, Kind: "protect", Static: true, Props: fd.Props}
-	if fd.Kind == "storesconst" || fd.Kind == "mapvalues" {
+	if fd.Kind == "storesconst" || fd.Kind == "mapvalues" || fd.Kind == "syncmapvalues" {
 		o.Name += "." + fd.Kind
 	}
 	tname := fd.Pkg + "." + fd.Type
@@ -246,6 +246,35 @@ func (ld *Loaded) protectScan(fd *FieldDecl) *FuncResult {
 		for _, a := range accs {
 			if !isSyncReceiver(a.in, a.fa) {
 				note(a, "sync value used other than as the receiver of its methods")
+			}
+		}
+	case "syncmapvalues":
+		// a sync.Map field that only ever receives values of one named type: every storing method
+		// (Store, LoadOrStore, Swap, CompareAndSwap) gets a value converted from that type
+		want := strings.TrimSpace(fd.Arg)
+		for _, a := range accs {
+			c, isCall := a.in.(ssa.CallInstruction)
+			if !isCall || !isSyncReceiver(a.in, a.fa) {
+				continue // other uses are the business of the syncvalue clause
+			}
+			sc := c.Common().StaticCallee()
+			idx := map[string]int{"Store": 2, "LoadOrStore": 2, "Swap": 2, "CompareAndSwap": 3}[sc.Name()]
+			if idx == 0 || idx >= len(c.Common().Args) {
+				continue
+			}
+			mi, ok := c.Common().Args[idx].(*ssa.MakeInterface)
+			if !ok {
+				note(a, sc.Name()+" stores a value of unknown dynamic type")
+				continue
+			}
+			got := types.TypeString(mi.X.Type(), func(p *types.Package) string {
+				if p.Path() == fd.Pkg {
+					return ""
+				}
+				return p.Path()
+			})
+			if got != want {
+				note(a, sc.Name()+" stores a "+got+", not a "+want)
 			}
 		}
 	case "elemsync":
